@@ -39,7 +39,8 @@ ASSUMPTIONS = ['error identity under permutation is only required when one '
 MIN_NONTRIVIAL = {'quick': 1500, 'thorough': 30000}
 
 COLS = 'ABCDE'
-NUMBERS = [0, 1, -1, 2, 3.5, -2.25, 10, 100, 0.1, 7, 1e6, -0.5]
+NUMBERS = [0, 1, -1, 2, 3.5, -2.25, 10, 100, 0.1, 7, 1e6, -0.5,
+           4000000000, -3000000000, 2 ** 40]
 OTHERS = ['1', '2.5', 'a', '', 'TRUE', True, False, None, None]
 
 
